@@ -21,7 +21,8 @@ RULE = ("base queries (SQLAlchemy: select(Item), .where, .join(Item.owner), .out
         "once in the compiled FROM clause. Registry histories (exhaustive): {use sqlalchemy.func.<n>, import the "
         "backend, use again} and {import, use} in fresh processes for the nine names functions_ext defines plus "
         "controls; snapshots (class, SQL text, type) must be equal. Non-trivial: base is not the unfiltered query "
-        "and the filter changes the result; distinct by (base, filter, instance).")
+        "and the filter changes the result; distinct by (base, filter, instance)."
+        " SQLAlchemy: the number of JOINs in the FROM clause of apply(base, f) must not exceed the base's joins plus the to-one hops f navigates. Django bases include a restricting custom manager and a related manager; SQLAlchemy bases include joins on a relationship key that another model also has (Item.home / Owner.home).")
 ASSUMPTIONS = ["without an ORDER BY on the base the comparison is on multisets; with one it is on sequences",
                "SQLite is the only engine"]
 
